@@ -36,7 +36,10 @@ PROPS = {
         lean=["Upf.Props.C07"],
         claim="Theorems for every modulus M > 0, cursor, used-set and operation sequence: a granted TEID is non-zero, <= M, was free; "
               "refused only when all M are used; live TEIDs pairwise distinct over any alloc/free history (incl. wrap-around); a granted SEID is "
-              "non-zero and not live for every random source, refused iff all maxRetries draws collide. Tied by the regenerated updateOffset, "
+              "non-zero and not live for every random source, refused iff all maxRetries draws collide. At the level of the agent (establishment / deletion / report / association-end "
+              "handlers of the BESS agent model, any number of associations): along every history the TEIDs chosen for the stored sessions are non-zero, pairwise different across all "
+              "associations and in use in the allocator, an establishment refused at any point gives back exactly what it had chosen, an ending exactly its own "
+              "(chosen_teids_distinct_along_every_history). Tied by the regenerated updateOffset, "
               "constants and lock facts (T1) and by op-sequence traces with injected cursor/random source (T2). The 'reported = programmed' clause "
               "is checked by the system-level harness under C02/C03.",
         note="Trusted: Lean kernel + standard axioms; sync.Mutex; math/rand only through the injected source; hook wrappers. "
@@ -83,7 +86,8 @@ PROPS = {
         claim="BESS part proved for all rates / burst configurations / rule sets: closed gate drops; open gate with GBR <= MBR < 2^40 is metered with "
               "peak = MBR x 125 and committed = max(GBR x 125, 1) whatever the other direction left behind; both zero unmetered; burst = exactly "
               "floor(rate x duration / 8) and >= the configured minimum; a QER labelled session-wide by a marking call is referenced by every PDR, at most "
-              "one per call. The history clause (never re-labelled) is FALSE for the code: theorem mark_stable_fails + open known finding. "
+              "one per call. T1: calcBurstSizeFromRate as regenerated from utils.go is proved equal to the model's calcBurst on every pair of 64-bit inputs (burst_is_the_code). "
+              "The history clause (never re-labelled) is FALSE for the code: theorem mark_stable_fails + open known finding. "
               "UP4 clauses (gate -> drop action, QFI -> TC) are checked with C04.",
         note="partial: the re-labelling clause is a recorded finding, not a theorem; the UP4 side is with C04. Trusted: Lean kernel + standard axioms, "
              "go-pfcp codecs, fake BESS server, the hand transcription of addQER (validated by every QoS entry of the run).",
@@ -98,10 +102,15 @@ PROPS = {
         level="proof",
         claim="Packet level: for ALL packets, some written pdrLookup entry matches iff the PDR denotes the packet (on top of C17); priorities ordered as precedence. "
               "Table level: establishment/deletion commands turn image(store) into image(store') on keyed tables; disjoint-key commands commute. "
+              "Agent level, every history: on the full agent model with the real key strings of the four lookup tables, from start-up on and after every association setup, PFD update, "
+              "establishment (accepted or refused), deletion, report 'context not found' and association ending, over any number of associations and sessions, each table read as a map "
+              "equals Agent.image of the stored sessions and nothing lies under a key no stored session has (tables_are_the_image_along_every_history, invariant Agent.Inv, by induction over the history). "
+              "T1: the model's action encoding / allocation test are proved equal to the regenerated bess.setActionValue / needAllocIP on all inputs. "
               "Agent level: executable model of establish/modify/delete + MarkSessionQer + bess.go command stream, tied to the REAL agent (child process, public API) "
               "by trace acceptance: after every response the harness BESS server's tables must equal the model's and the image of the live sessions; "
               "restart after SIGKILL must leave the four lookup modules empty.",
-        note="partial: the image refinement is proved on the reduced table model, the full agent model is tied by T2 only; BESS itself is a table model "
+        note="partial: the history theorem covers every request kind except Session Modification (for which the statement is false of the code: key-changing Update PDR, "
+             "QER relabelling - open findings); modifications are tied by T2 only; BESS itself is a table model "
              "(semantics of pkg/fake_bess). Envelope of the theorems: IPv4, distinct rule IDs per session, distinct match keys of live PDRs, key-preserving updates; "
              "key-changing Update PDRs are generated too and judged by the oracle (open finding C03-update-pdr-changes-key).",
         rule="rounds of: seeded leftovers, start, two associations, a random history of 4-13 requests (establish 8 session shapes incl. SDF/app filters, CHOOSE F-TEID, UE-IP "
@@ -219,7 +228,7 @@ PROPS = {
     "C05": dict(
         lean=["Upf.Props.C05"],
         level="proof",
-        claim="For every world and request of the agent model: the pool invariant (C06) is preserved by every establishment (accepted or refused at any point) and "
+        claim="Along every history of the BESS agent model (establishments accepted or refused at any point, deletions, reports 'context not found', association endings; any number of associations and sessions): a TEID is in use in the allocator only if a stored session's PDR holds it and a key is present in a lookup table only if a stored session has it; once no session is left no TEID is in use and the four tables are empty (nothing_leaks_along_every_history, all_ended_all_returned). For every world and request of the agent model: the pool invariant (C06) is preserved by every establishment (accepted or refused at any point) and "
               "every deletion; the release gives back the session's address and TEIDs; an accepted deletion drops exactly the session's record; an ended "
               "association is forgotten. Tied by T2 to the REAL agent for all five ways a session ends (deletion, association release, read timeout, heartbeat "
               "failure, report 'context not found') after accepted and rejected requests: fake-BESS tables, pool/TEID/store occupancy through hooks, the "
